@@ -188,6 +188,7 @@ class DefaultHelpFormatter(HelpFormatter):
         """Adds help text as yaml comments."""
         ruyaml = import_ruyaml("add_yaml_comments")
         yaml = ruyaml.YAML()
+        yaml.preserve_quotes = True  # quotes tell strings from what a yaml 1.1 loader reads as bool, int, ...
         cfg = yaml.load(cfg)
 
         def get_subparsers(parser, prefix=""):
